@@ -1,8 +1,764 @@
-//! C11 — not built yet.
+//! C11 — `succinctly jq .` output reads back to the input's value under every output
+//! option (DESIGN §4 C11). Black-box: documents are built from the G-json model, written to
+//! a file (or stdin), the CLI's stdout is split on the mode's separator and parsed with
+//! O-jsonval, and compared with the model after jq's duplicate collapse (and a recursive
+//! key sort under `-S`).
+use crate::cli;
 use crate::engine::*;
+use crate::gen::json::{self as gj, GenOpts, KeyPalette, StrPalette, J};
+use crate::oracle::jsonval as jv;
+use serde_json::{json, Value};
 
-pub const RULE: &str = "not built";
+pub const RULE: &str = "G-json documents (duplicate keys, every escape form, non-ASCII, every number shape, whitespace in every gap; nesting 0..255 levels = the printer's own guard, deeper ones only 'error reported, no crash') x option sets {default,-c,--indent 0..7,--tab} x [-S] x [-a] x [--seq] x {none,-r,-j,--raw-output0 (non-string roots)}; batches of 1..24 documents per spawn, 3 option sets per batch, first failing document isolated by re-running documents singly. Oracle: stdout split on the mode's separator, parsed by O-jsonval, equals the model after first-position/last-value duplicate collapse (keys sorted by UTF-8 bytes recursively under -S), numbers as doubles, strings identical; -a => pure ASCII; exit 0. Non-trivial document: nested container and (duplicate key or escape or non-ASCII or exponent/fraction number) under a non-default option set; distinct by hash(text,args).";
+
+const GUARD_LEVEL: usize = 255; // deepest node level the printer accepts (`level < 256`)
+const SEQ_VALIDATOR_DEPTH: usize = 128;
+pub const SIG_SEQ_DROP: &str = "C11/seq/valid-document-dropped-silently/nesting>128";
+
+#[derive(Clone, Copy, Debug, PartialEq)]
+enum Layout {
+    Default,
+    Compact,
+    Indent(u8),
+    Tab,
+}
+
+#[derive(Clone, Copy, Debug, PartialEq)]
+enum Raw {
+    None,
+    R,
+    J,
+    Raw0,
+}
+
+#[derive(Clone, Debug, PartialEq)]
+struct Opts {
+    layout: Layout,
+    sort: bool,
+    ascii: bool,
+    seq: bool,
+    raw: Raw,
+}
+
+impl Opts {
+    fn args(&self) -> Vec<String> {
+        let mut a: Vec<String> = vec!["jq".into()];
+        match self.layout {
+            Layout::Default => {}
+            Layout::Compact => a.push("-c".into()),
+            Layout::Indent(n) => {
+                a.push("--indent".into());
+                a.push(n.to_string());
+            }
+            Layout::Tab => a.push("--tab".into()),
+        }
+        if self.sort {
+            a.push("-S".into());
+        }
+        if self.ascii {
+            a.push("-a".into());
+        }
+        if self.seq {
+            a.push("--seq".into());
+        }
+        match self.raw {
+            Raw::None => {}
+            Raw::R => a.push("-r".into()),
+            Raw::J => a.push("-j".into()),
+            Raw::Raw0 => a.push("--raw-output0".into()),
+        }
+        a
+    }
+    fn from_args(args: &[String]) -> Opts {
+        let mut o = Opts { layout: Layout::Default, sort: false, ascii: false, seq: false, raw: Raw::None };
+        let mut i = 0;
+        while i < args.len() {
+            match args[i].as_str() {
+                "-c" => o.layout = Layout::Compact,
+                "--tab" => o.layout = Layout::Tab,
+                "--indent" => {
+                    i += 1;
+                    o.layout = Layout::Indent(args.get(i).and_then(|s| s.parse().ok()).unwrap_or(2));
+                }
+                "-S" => o.sort = true,
+                "-a" => o.ascii = true,
+                "--seq" => o.seq = true,
+                "-r" => o.raw = Raw::R,
+                "-j" => o.raw = Raw::J,
+                "--raw-output0" => o.raw = Raw::Raw0,
+                _ => {}
+            }
+            i += 1;
+        }
+        o
+    }
+    /// the lazy cursor printer is used unless one of these forces materialisation
+    fn materialised(&self) -> bool {
+        self.sort || self.ascii || self.seq
+    }
+    fn is_default(&self) -> bool {
+        self.layout == Layout::Default && !self.sort && !self.ascii && !self.seq && self.raw == Raw::None
+    }
+    fn route(&self) -> &'static str {
+        if self.materialised() {
+            "materialised"
+        } else {
+            "lazy"
+        }
+    }
+}
+
+fn gen_opts(u: &mut Src) -> Opts {
+    let layout = match u.below(6) {
+        0 => Layout::Default,
+        1 | 2 => Layout::Compact,
+        3 | 4 => Layout::Indent(u.range(0, 7) as u8),
+        _ => Layout::Tab,
+    };
+    Opts {
+        layout,
+        sort: u.ratio(1, 3),
+        ascii: u.ratio(1, 3),
+        seq: u.ratio(1, 4),
+        raw: match u.below(8) {
+            0 => Raw::R,
+            1 => Raw::J,
+            2 => Raw::Raw0,
+            _ => Raw::None,
+        },
+    }
+}
+
+#[derive(Clone, Copy, Debug, PartialEq)]
+enum Framing {
+    /// documents separated by JSON whitespace
+    Plain,
+    /// RFC 7464: RS before, LF after every document (what `--seq` reads)
+    Rs,
+}
+
+struct Doc {
+    model: J,
+    text: Vec<u8>,
+}
+
+/// deepest node level (root = 0); iterative
+fn max_level(j: &J) -> usize {
+    let mut max = 0;
+    let mut stack: Vec<(&J, usize)> = vec![(j, 0)];
+    while let Some((x, d)) = stack.pop() {
+        max = max.max(d);
+        match x {
+            J::Arr(a) => stack.extend(a.iter().map(|y| (y, d + 1))),
+            J::Obj(o) => stack.extend(o.iter().map(|y| (&y.1, d + 1))),
+            _ => {}
+        }
+    }
+    max
+}
+
+struct Feats {
+    nested: bool,
+    dup: bool,
+    escape: bool,
+    non_ascii: bool,
+    expo: bool,
+    big_int: bool,
+}
+
+fn feats(d: &Doc) -> Feats {
+    let mut f = Feats {
+        nested: d.model.depth() >= 2,
+        dup: d.model.has_dup_keys(),
+        escape: d.text.contains(&b'\\'),
+        non_ascii: false,
+        expo: false,
+        big_int: false,
+    };
+    let mut stack: Vec<&J> = vec![&d.model];
+    while let Some(x) = stack.pop() {
+        match x {
+            J::Arr(a) => stack.extend(a.iter()),
+            J::Obj(o) => {
+                for (k, v) in o {
+                    if !k.is_ascii() {
+                        f.non_ascii = true;
+                    }
+                    stack.push(v);
+                }
+            }
+            J::Str(s) => {
+                if !s.is_ascii() {
+                    f.non_ascii = true;
+                }
+            }
+            J::Num(n) => {
+                if n.text.contains(['e', 'E', '.']) {
+                    f.expo = true;
+                }
+                if n.int.is_none() && !n.text.contains(['e', 'E', '.']) {
+                    f.big_int = true;
+                }
+            }
+            _ => {}
+        }
+    }
+    f
+}
+
+/// Run collapse/sort/compare on a roomy stack: the shared oracle helpers recurse.
+fn on_big_stack<T: Send>(f: impl FnOnce() -> T + Send) -> T {
+    std::thread::scope(|s| {
+        std::thread::Builder::new()
+            .stack_size(512 << 20)
+            .spawn_scoped(s, f)
+            .expect("spawn helper thread")
+            .join()
+            .expect("helper thread")
+    })
+}
+
+fn expected_of(model: &J, sort: bool) -> J {
+    let work = || {
+        let c = jv::collapse_dups(model);
+        if sort {
+            let s = jv::sort_keys(&c);
+            gj::drop_deep(c);
+            s
+        } else {
+            c
+        }
+    };
+    if model.depth() > 150 {
+        on_big_stack(work)
+    } else {
+        work()
+    }
+}
+
+/// First difference between two values: (jq-ish path, kind)
+fn first_diff(exp: &J, act: &J) -> Option<(String, &'static str)> {
+    let mut stack: Vec<(&J, &J, String)> = vec![(exp, act, String::from("."))];
+    while let Some((a, b, p)) = stack.pop() {
+        // keep paths short on deep documents
+        let p = if p.len() > 400 {
+            let mut c = p.len() - 300;
+            while !p.is_char_boundary(c) {
+                c += 1;
+            }
+            format!("…{}", &p[c..])
+        } else {
+            p
+        };
+        match (a, b) {
+            (J::Null, J::Null) => {}
+            (J::Bool(x), J::Bool(y)) if x == y => {}
+            (J::Num(x), J::Num(y)) => {
+                if x.value != y.value {
+                    return Some((p, "number"));
+                }
+            }
+            (J::Str(x), J::Str(y)) => {
+                if x != y {
+                    return Some((p, "string"));
+                }
+            }
+            (J::Arr(x), J::Arr(y)) => {
+                if x.len() != y.len() {
+                    return Some((p, "array-length"));
+                }
+                for (i, (q, r)) in x.iter().zip(y.iter()).enumerate().rev() {
+                    stack.push((q, r, format!("{}[{}]", p, i)));
+                }
+            }
+            (J::Obj(x), J::Obj(y)) => {
+                let kx: Vec<&String> = x.iter().map(|e| &e.0).collect();
+                let ky: Vec<&String> = y.iter().map(|e| &e.0).collect();
+                if kx != ky {
+                    let mut sx = kx.clone();
+                    let mut sy = ky.clone();
+                    sx.sort();
+                    sy.sort();
+                    let dup_out = sy.windows(2).any(|w| w[0] == w[1]);
+                    return Some((
+                        p,
+                        if dup_out {
+                            "duplicate-key-in-output"
+                        } else if sx == sy {
+                            "key-order"
+                        } else {
+                            "key-set"
+                        },
+                    ));
+                }
+                for ((k, q), (_, r)) in x.iter().zip(y.iter()).rev() {
+                    stack.push((q, r, format!("{}[{:?}]", p, k)));
+                }
+            }
+            _ => return Some((p, "kind")),
+        }
+    }
+    None
+}
+
+fn lossy(b: &[u8]) -> String {
+    let s = String::from_utf8_lossy(b);
+    if s.len() > 6000 {
+        let mut cut = 6000;
+        while !s.is_char_boundary(cut) {
+            cut -= 1;
+        }
+        format!("{}…(+{} bytes)", &s[..cut], s.len() - cut)
+    } else {
+        s.to_string()
+    }
+}
+
+/// Split stdout into one byte slice per printed value, by the mode's separator.
+fn split_outputs<'a>(o: &Opts, out: &'a [u8]) -> Result<Vec<J>, (String, String)> {
+    let parse_piece = |p: &[u8]| -> Result<J, (String, String)> {
+        jv::parse_one(p).map_err(|e| ("output-not-json".to_string(), format!("{} at byte {} of piece {:?}", e.msg, e.offset, show_bytes(p))))
+    };
+    let term: &[u8] = match o.raw {
+        Raw::Raw0 => b"\0",
+        Raw::J => b"",
+        _ => b"\n",
+    };
+    if o.seq {
+        // RS value terminator, RS value terminator, ...
+        let mut vals = vec![];
+        if out.is_empty() {
+            return Ok(vals);
+        }
+        if out[0] != 0x1e {
+            return Err(("seq-missing-RS".into(), format!("stdout starts with {:?}", show_bytes(&out[..out.len().min(20)]))));
+        }
+        for piece in out[1..].split(|&b| b == 0x1e) {
+            if !piece.ends_with(term) {
+                return Err(("missing-terminator".into(), format!("record {:?} does not end with the mode's terminator", show_bytes(piece))));
+            }
+            vals.push(parse_piece(&piece[..piece.len() - term.len()])?);
+        }
+        return Ok(vals);
+    }
+    match o.raw {
+        Raw::Raw0 => {
+            let mut vals = vec![];
+            if out.is_empty() {
+                return Ok(vals);
+            }
+            if *out.last().unwrap() != 0 {
+                return Err(("missing-terminator".into(), "stdout does not end with NUL".into()));
+            }
+            for piece in out[..out.len() - 1].split(|&b| b == 0) {
+                vals.push(parse_piece(piece)?);
+            }
+            Ok(vals)
+        }
+        Raw::J => jv::parse_stream(out).map_err(|e| ("output-not-json".to_string(), format!("{} at byte {}", e.msg, e.offset))),
+        _ => {
+            if !out.is_empty() && *out.last().unwrap() != b'\n' {
+                return Err(("missing-terminator".into(), "stdout does not end with LF".into()));
+            }
+            jv::parse_stream(out).map_err(|e| ("output-not-json".to_string(), format!("{} at byte {}", e.msg, e.offset)))
+        }
+    }
+}
+
+fn build_input(docs: &[&Doc], framing: Framing, sep: &[u8]) -> Vec<u8> {
+    let mut v = vec![];
+    for (i, d) in docs.iter().enumerate() {
+        match framing {
+            Framing::Rs => {
+                v.push(0x1e);
+                v.extend_from_slice(&d.text);
+                v.push(b'\n');
+            }
+            Framing::Plain => {
+                if i > 0 {
+                    v.extend_from_slice(sep);
+                }
+                v.extend_from_slice(&d.text);
+            }
+        }
+    }
+    if framing == Framing::Plain && docs.len() > 1 {
+        v.push(b'\n');
+    }
+    v
+}
+
+enum Outcome {
+    Pass,
+    Inconclusive,
+}
+
+/// One spawn over `docs`; every document's output is compared with its model.
+fn run_docs(o: &Opts, docs: &[&Doc], framing: Framing, sep: &[u8], via_stdin: bool) -> Result<Outcome, Fail> {
+    let input = build_input(docs, framing, sep);
+    let mut args = o.args();
+    args.push(".".into());
+    let path;
+    let out = if via_stdin {
+        let a: Vec<&str> = args.iter().map(|s| s.as_str()).collect();
+        cli::run(&a, Some(&input))
+    } else {
+        path = cli::write_tmp("c11", &input);
+        args.push(path.to_string_lossy().to_string());
+        let a: Vec<&str> = args.iter().map(|s| s.as_str()).collect();
+        let r = cli::run(&a, None);
+        let _ = std::fs::remove_file(&path);
+        args.pop();
+        r
+    };
+    if out.timed_out {
+        return Ok(Outcome::Inconclusive);
+    }
+    let single = docs.len() == 1;
+    let route = o.route();
+    let detail = |what: &str, extra: Value| -> Value {
+        let mut d = json!({
+            "what": what,
+            "args": args,
+            "input_via": if via_stdin { "stdin" } else { "file argument" },
+            "framing": format!("{:?}", framing),
+            "documents": docs.len(),
+            "exit": out.code,
+            "signal": out.signal,
+            "stderr": lossy(&out.stderr[..out.stderr.len().min(600)]),
+            "extra": extra,
+        });
+        if single {
+            d["doc"] = json!(lossy(&docs[0].text));
+            d["stdout"] = json!(lossy(&out.stdout[..out.stdout.len().min(3000)]));
+            d["nesting"] = json!(docs[0].model.depth());
+        }
+        d
+    };
+    let lvl = docs.iter().map(|d| max_level(&d.model)).max().unwrap_or(0);
+    let beyond = lvl > GUARD_LEVEL;
+    if out.signal.is_some() {
+        return Err(Fail::new(format!("C11/{}/crash/signal", route), detail("killed by a signal", json!({}))));
+    }
+    if beyond && out.code != Some(0) {
+        // outside the documented depth: an error must be reported, a crash is only the
+        // documented nesting-guard panic
+        let err = String::from_utf8_lossy(&out.stderr);
+        if out.code == Some(101) && !err.contains("nesting depth exceeds limit of") {
+            return Err(Fail::new(format!("C11/{}/crash/exit-101-beyond-depth", route), detail("panic other than the documented nesting guard", json!({"level": lvl}))));
+        }
+        if err.trim().is_empty() {
+            return Err(Fail::new(format!("C11/{}/beyond-depth/failure-without-message", route), detail("non-zero exit and empty stderr", json!({"level": lvl}))));
+        }
+        return Ok(Outcome::Pass);
+    }
+    if out.code == Some(101) {
+        return Err(Fail::new(format!("C11/{}/crash/exit-101", route), detail("Rust panic (exit status 101)", json!({}))));
+    }
+    if out.code != Some(0) {
+        return Err(Fail::new(format!("C11/{}/exit-status", route), detail("non-zero exit status on a valid document", json!({}))));
+    }
+    let vals = match split_outputs(o, &out.stdout) {
+        Ok(v) => v,
+        Err((k, m)) => return Err(Fail::new(format!("C11/{}/{}", route, k), detail(&m, json!({})))),
+    };
+    if vals.len() != docs.len() {
+        // the narrow shape of the --seq finding: whole document missing, exit 0, nothing printed for it
+        let sig = if single && o.seq && vals.is_empty() && out.stdout.is_empty() && docs[0].model.depth() > SEQ_VALIDATOR_DEPTH {
+            SIG_SEQ_DROP.to_string()
+        } else if beyond {
+            format!("C11/{}/beyond-depth/silent-drop", route)
+        } else {
+            format!("C11/{}/output-count", route)
+        };
+        return Err(Fail::new(sig, detail("number of printed values differs from the number of documents", json!({"printed": vals.len(), "level": lvl}))));
+    }
+    if o.ascii {
+        if let Some(p) = out.stdout.iter().position(|&b| b >= 0x80) {
+            return Err(Fail::new("C11/materialised/ascii-output/non-ascii-byte", detail("-a output contains a byte >= 0x80", json!({"offset": p}))));
+        }
+    }
+    for (i, (d, v)) in docs.iter().zip(vals.iter()).enumerate() {
+        let exp = expected_of(&d.model, o.sort);
+        let same = gj::j_eq(&exp, v);
+        if !same {
+            let (path, kind) = first_diff(&exp, v).unwrap_or((".".into(), "unknown"));
+            let f = feats(d);
+            let tag = if f.dup && kind != "number" && kind != "string" { "/input-has-duplicate-keys" } else { "" };
+            let mut det = detail("printed value differs from the input's value", json!({"document_index": i, "first_difference_at": path, "kind": kind, "expected": lossy(gj::to_compact(&exp).as_bytes())}));
+            det["doc"] = json!(lossy(&d.text));
+            return Err(Fail::new(format!("C11/{}/value-mismatch/{}{}{}", route, kind, tag, if o.sort { "/-S" } else { "" }), det));
+        }
+        gj::drop_deep(exp);
+    }
+    for v in vals {
+        gj::drop_deep(v);
+    }
+    Ok(Outcome::Pass)
+}
+
+/// Batch, then isolate the first failing document.
+fn run_batch(o: &Opts, docs: &[&Doc], framing: Framing, sep: &[u8], via_stdin: bool, st: &mut Stats) -> Result<(), Fail> {
+    match run_docs(o, docs, framing, sep, via_stdin) {
+        Ok(Outcome::Pass) => Ok(()),
+        Ok(Outcome::Inconclusive) => {
+            st.discard();
+            Ok(())
+        }
+        Err(batch_fail) => {
+            if docs.len() == 1 {
+                return Err(batch_fail);
+            }
+            for d in docs {
+                // a single document is first offered in its plainest form (no RS framing)
+                for fr in [Framing::Plain, framing] {
+                    match run_docs(o, &[*d], fr, sep, via_stdin) {
+                        Err(f) => return Err(f),
+                        Ok(Outcome::Inconclusive) => {
+                            st.discard();
+                            return Ok(());
+                        }
+                        Ok(Outcome::Pass) => {}
+                    }
+                    if framing == Framing::Plain {
+                        break;
+                    }
+                }
+            }
+            // only the stream fails
+            let mut f = batch_fail;
+            f.sig = f.sig.replacen("C11/", "C11/stream-only/", 1);
+            if let Some(m) = f.detail.as_object_mut() {
+                m.insert("stream".into(), json!(lossy(&build_input(docs, framing, sep))));
+            }
+            Err(f)
+        }
+    }
+}
+
+fn gen_doc(u: &mut Src, tier_big: bool) -> J {
+    let o = match u.below(8) {
+        0 => GenOpts { max_depth: u.range(0, 3), max_nodes: u.range(1, 12), ..GenOpts::default() },
+        1 => GenOpts { keys: KeyPalette::Ident, max_depth: 5, max_nodes: 40, ..GenOpts::default() },
+        2 => GenOpts { keys: KeyPalette::Hostile, max_depth: 4, max_nodes: 30, ..GenOpts::default() },
+        3 => GenOpts { strings: StrPalette::Ascii, max_depth: 6, max_nodes: 60, ..GenOpts::default() },
+        4 => GenOpts { max_depth: 3, max_nodes: if tier_big { 400 } else { 150 }, ..GenOpts::default() },
+        _ => GenOpts { max_depth: u.range(1, 8), max_nodes: u.range(2, 80), ..GenOpts::default() },
+    };
+    let mut j = gj::gen_value(u, &o);
+    // wide objects: the duplicate probe switches strategy above 16 fields
+    if u.ratio(1, 12) {
+        let n = u.range(14, 40);
+        let mut f: Vec<(String, J)> = (0..n).map(|i| (format!("k{}", i % u.range(5, 40).max(1)), J::int(i as i64))).collect();
+        if u.bool() {
+            let k = gj::gen_key(u, &o);
+            f.push((k.clone(), J::Null));
+            f.insert(u.below(f.len()), (k, gj::gen_scalar(u, &o)));
+        }
+        f.push(("inner".into(), j));
+        j = J::Obj(f);
+    }
+    if u.ratio(1, 10) {
+        let d = u.range(1, 40);
+        j = gj::wrap_deep(u, j, d);
+    }
+    j
+}
+
+fn adapt_root(j: &J, raw: Raw, batch: usize) -> J {
+    // raw modes are only stated for non-string roots; -j prints no separator, so inside a
+    // batch only self-delimiting roots (containers) keep the stream splittable
+    match (raw, j) {
+        (Raw::None, _) => j.clone(),
+        (_, J::Str(_)) => J::Arr(vec![j.clone()]),
+        (Raw::J, x) if batch > 1 && !x.is_container() => J::Arr(vec![x.clone()]),
+        _ => j.clone(),
+    }
+}
+
+fn classify(o: &Opts, d: &Doc, args_hash: u64, st: &mut Stats) {
+    let f = feats(d);
+    st.evals(1);
+    st.class(if o.materialised() { "route-materialised" } else { "route-lazy" });
+    st.class_if(f.dup, "doc-duplicate-keys");
+    st.class_if(f.escape, "doc-escapes");
+    st.class_if(f.non_ascii, "doc-non-ascii");
+    st.class_if(f.expo, "doc-fraction-or-exponent");
+    st.class_if(f.big_int, "doc-integer-past-i64");
+    st.class_if(f.dup && o.sort, "dup-keys-under--S");
+    st.class_if(f.non_ascii && o.ascii, "non-ascii-under--a");
+    st.class_if(!d.model.is_container(), "scalar-root");
+    let nt = f.nested && (f.dup || f.escape || f.non_ascii || f.expo) && !o.is_default();
+    if nt {
+        st.class("nontrivial");
+        st.nontrivial(mix64(hash_bytes(&d.text) ^ args_hash));
+    }
+}
+
+fn classify_opts(o: &Opts, st: &mut Stats) {
+    st.class(match o.layout {
+        Layout::Default => "layout-default",
+        Layout::Compact => "layout--c",
+        Layout::Indent(_) => "layout---indent",
+        Layout::Tab => "layout---tab",
+    });
+    st.class_if(o.sort, "opt--S");
+    st.class_if(o.ascii, "opt--a");
+    st.class_if(o.seq, "opt---seq");
+    st.class(match o.raw {
+        Raw::None => "raw-none",
+        Raw::R => "raw--r",
+        Raw::J => "raw--j",
+        Raw::Raw0 => "raw---raw-output0",
+    });
+}
+
+fn replay_input(v: &Value) -> Option<Fail> {
+    let inp = &v["input"];
+    let args: Vec<String> = inp["args"].as_array().map(|a| a.iter().filter_map(|x| x.as_str().map(|s| s.to_string())).collect()).unwrap_or_default();
+    let o = Opts::from_args(&args);
+    let text = inp["doc"].as_str().unwrap_or("null").as_bytes().to_vec();
+    // "doc_repeat": {"prefix": "[", "count": 129, "middle": "1", "suffix": "]"} builds deep documents compactly
+    let text = if let Some(r) = inp.get("doc_nested") {
+        let n = r["count"].as_u64().unwrap_or(0) as usize;
+        let mut t = r["open"].as_str().unwrap_or("[").repeat(n);
+        t.push_str(r["inner"].as_str().unwrap_or("1"));
+        t.push_str(&r["close"].as_str().unwrap_or("]").repeat(n));
+        t.into_bytes()
+    } else {
+        text
+    };
+    let model = match jv::parse_one(&text) {
+        Ok(m) => m,
+        Err(e) => return Some(Fail::new("C11/replay/bad-document", json!({"err": e.msg}))),
+    };
+    let framing = if inp["framing"] == "Rs" { Framing::Rs } else { Framing::Plain };
+    let d = Doc { model, text };
+    match run_docs(&o, &[&d], framing, b"\n", inp["input_via"] == "stdin") {
+        Ok(_) => None,
+        Err(f) => Some(f),
+    }
+}
 
 pub fn run(cx: &mut Ctx) {
-    cx.infra("check not built");
+    if !cli::cli_available() {
+        cx.infra(format!("CLI binary not found at {}", cli::cli_path()));
+        return;
+    }
+    cx.assume("O-jsonval (harness RFC 8259 parser; Rust str::parse::<f64>) is the conforming reader; the model value is known by construction from G-json");
+    cx.assume("nesting: every node at level <= 255 is inside the CLI's own limit (print_json guard `level < 256`, message 'nesting depth exceeds limit of 256'); deeper documents only assert an error is reported without a crash, the documented nesting-guard panic (exit 101 with that message, eval_generic::assert_nesting_depth) being tolerated there");
+    cx.assume("--seq reads RFC 7464 input: a lone document is given plain and RS-framed, batches RS-framed");
+    for (name, v) in cx.replays.clone() {
+        if v["kind"] == "input" {
+            let r = replay_input(&v);
+            cx.replay_outcome(&name, r);
+        }
+    }
+    let big = cx.tier == Tier::Thorough;
+    cx.check(
+        "readback-batches",
+        RULE,
+        Budget { quick: 2_500, thorough: 90_000, max_len: 12_000 },
+        |u, st| {
+            let n = match u.below(6) {
+                0 => 1,
+                1 => u.range(2, 4),
+                _ => u.range(5, 24),
+            };
+            let base: Vec<J> = (0..n).map(|_| gen_doc(u, big)).collect();
+            let sep: &[u8] = *u.pick(&[&b"\n"[..], b" ", b"\n\n", b"\t", b"\r\n", b" \n "]);
+            for _ in 0..3 {
+                let o = gen_opts(u);
+                let docs: Vec<Doc> = base
+                    .iter()
+                    .map(|j| {
+                        let m = adapt_root(j, o.raw, n);
+                        let ro = gj::render_opts(u);
+                        let r = gj::render(&m, u, ro);
+                        Doc { model: m, text: r.text }
+                    })
+                    .collect();
+                let refs: Vec<&Doc> = docs.iter().collect();
+                let framing = if o.seq && (n > 1 || u.bool()) { Framing::Rs } else { Framing::Plain };
+                let via_stdin = u.ratio(1, 4);
+                let args = o.args();
+                let ah = hash_str(&args.join(" "));
+                classify_opts(&o, st);
+                st.class(if framing == Framing::Rs { "input-RS-framed" } else { "input-plain" });
+                st.class_if(via_stdin, "input-stdin");
+                for d in &docs {
+                    classify(&o, d, ah, st);
+                    st.size(d.text.len());
+                }
+                st.sample(o.route(), || json!({"args": args, "documents": n, "first": lossy(&docs[0].text[..docs[0].text.len().min(300)])}));
+                st.describe(|| json!({"args": args, "documents": n, "framing": format!("{:?}", framing), "stdin": via_stdin, "texts": docs.iter().take(30).map(|d| lossy(&d.text)).collect::<Vec<_>>()}));
+                let r = run_batch(&o, &refs, framing, sep, via_stdin, st);
+                for d in docs {
+                    gj::drop_deep(d.model);
+                }
+                r?;
+            }
+            Ok(())
+        },
+    );
+    for c in ["route-lazy", "route-materialised", "doc-duplicate-keys", "dup-keys-under--S", "non-ascii-under--a", "opt---seq", "raw--j", "raw---raw-output0", "raw--r", "layout---tab", "layout---indent", "nontrivial"] {
+        cx.require_class("readback-batches", c, 20);
+    }
+
+    cx.check(
+        "readback-deep",
+        "one document per spawn: a small G-json value wrapped in 100..3000 array/object levels (boundaries 127..130 = the strict validator's and serde_json's limit, 254..258 = the printer's guard) x every option set; levels <= 255 must read back exactly, deeper ones must report an error (or still read back) without a crash",
+        Budget { quick: 1_200, thorough: 30_000, max_len: 600 },
+        |u, st| {
+            let go = GenOpts { max_depth: u.range(0, 2), max_nodes: u.range(1, 6), ..GenOpts::default() };
+            let inner = gj::gen_value(u, &go);
+            let inner_lvl = max_level(&inner);
+            let target = match u.below(12) {
+                0 => u.range(100, 126),
+                1 | 2 => u.range(127, 131),
+                3 => u.range(132, 250),
+                4 | 5 | 6 => u.range(251, 255),
+                7 | 8 => u.range(256, 259),
+                9 => u.range(260, 700),
+                10 => u.range(700, 3000),
+                _ => u.range(2, 99),
+            };
+            let wraps = target.saturating_sub(inner_lvl).max(1);
+            let o = gen_opts(u);
+            let model = adapt_root(&gj::wrap_deep(u, inner, wraps), o.raw, 1);
+            let ro = gj::RenderOpts { ws: *u.pick(&[gj::Ws::None, gj::Ws::None, gj::Ws::Random, gj::Ws::Pretty, gj::Ws::Spaced]), esc: gj::Esc::Random, outer_ws: u.bool() };
+            let r = gj::render(&model, u, ro);
+            let d = Doc { model, text: r.text };
+            let lvl = max_level(&d.model);
+            let cd = d.model.depth();
+            let framing = if o.seq && u.bool() { Framing::Rs } else { Framing::Plain };
+            let args = o.args();
+            classify_opts(&o, st);
+            st.evals(1);
+            st.class(if o.materialised() { "route-materialised" } else { "route-lazy" });
+            st.class(if lvl > GUARD_LEVEL {
+                "level>255 (beyond the limit)"
+            } else if cd > SEQ_VALIDATOR_DEPTH {
+                "nesting 129..256 (past serde_json/validator limit, inside the CLI limit)"
+            } else {
+                "nesting<=128"
+            });
+            st.class_if(lvl == GUARD_LEVEL, "level==255");
+            st.class_if(lvl == GUARD_LEVEL + 1, "level==256");
+            st.class_if(cd > SEQ_VALIDATOR_DEPTH && lvl <= GUARD_LEVEL && o.materialised() && !o.seq, "nesting>128-materialised");
+            if lvl <= GUARD_LEVEL && !o.is_default() {
+                st.nontrivial(mix64(hash_bytes(&d.text) ^ hash_str(&args.join(" "))));
+            }
+            st.size(d.text.len());
+            st.sample(if lvl > GUARD_LEVEL { "beyond" } else { "inside" }, || json!({"args": args, "level": lvl, "bytes": d.text.len()}));
+            st.describe(|| json!({"args": args, "level": lvl, "nesting": cd, "framing": format!("{:?}", framing), "doc": lossy(&d.text)}));
+            let r = run_batch(&o, &[&d], framing, b"\n", u.ratio(1, 4), st);
+            gj::drop_deep(d.model);
+            r
+        },
+    );
+    for c in ["level>255 (beyond the limit)", "level==255", "level==256", "nesting>128-materialised", "nesting<=128"] {
+        cx.require_class("readback-deep", c, 10);
+    }
+    cli::cleanup();
 }
